@@ -1,4 +1,5 @@
 import Dashu.Model.Text.Spec
+import Dashu.Gen.Misc
 /-
   C07 — model of integer printing: `integer/src/radix.rs`, `integer/src/math.rs::max_exp_in_word`,
   `integer/src/fmt/{mod,non_power_two,power_two,digit_writer}.rs`.  Core Lean only.
@@ -105,8 +106,8 @@ def preparedMedium (W r n : Nat) : List Nat :=
   let tg := mediumLoop W ri.rpw n []
   preparedWord r tg.1 1 ++ tg.2.flatMap (fun g => preparedWord r g ri.dpw)
 
-/-- fmt `CHUNK_LEN` -/
-def fmtChunkLen : Nat := 16
+/-- fmt `CHUNK_LEN`: the constant regenerated from integer/src/fmt/non_power_two.rs (Tie A) -/
+def fmtChunkLen : Nat := Dashu.Gen.fmt_CHUNK_LEN
 
 /-- the `for group in groups.iter_mut()` loop of `write_chunk`: exactly `count` groups -/
 def chunkGroups (rpw : Nat) : Nat → Nat → List Nat → List Nat
@@ -124,14 +125,15 @@ def writeBig (W r : Nat) : List Nat → Nat → List Nat
   | p :: ps, x => writeBig W r ps (x / p) ++ writeBig W r ps (x % p)
 
 /-- the `loop` of `PreparedLarge::new` that squares the last power while it may still be `≤ number`;
-    `ps` = `radix_powers`, biggest first -/
+    `ps` = `radix_powers`, biggest first.  The length shortcut is the predicate REGENERATED from the
+    source text on every run (`Dashu.Gen.fmt_tower_stop`, Tie A): `2 * prev.len() - 1 > number.len()`. -/
 def buildPowers (W n : Nat) : Nat → List Nat → List Nat
   | 0, ps => ps
   | fuel + 1, ps =>
     match ps with
     | [] => []
     | prev :: _ =>
-      if 2 * wordLen W prev - 1 > wordLen W n then ps
+      if Dashu.Gen.fmt_tower_stop (wordLen W prev) (wordLen W n) then ps
       else
         let new := prev * prev
         if new > n then ps else buildPowers W n fuel (new :: ps)
